@@ -910,10 +910,34 @@ func (g *G) deferElement() []Stmt {
 	return out
 }
 
+// deferAfterReturn: the result of an invocation is the value at the return
+// statement; a deferred call that overwrites the returned slot or variable
+// afterwards does not alter it
+func (g *G) deferAfterReturn() []Stmt {
+	g.feat("defer-does-not-alter-result")
+	l, fn := g.fresh("rl"), g.fresh("rf")
+	var ret Expr = &Index{X: &Name{N: l}, I: &IntLit{V: 0}}
+	mut := Stmt(&Assign{LHS: []Expr{&Index{X: &Name{N: l}, I: &IntLit{V: 0}}}, RHS: []Expr{&IntLit{V: 99}}})
+	if g.R.Intn(3) == 0 {
+		ret = &Name{N: "rloc"}
+		mut = &Assign{LHS: []Expr{&Name{N: "rloc"}}, RHS: []Expr{&IntLit{V: 99}}}
+	}
+	body := []Stmt{&VarStmt{Names: []string{"rloc"}, Exprs: []Expr{&IntLit{V: 33}}},
+		&Defer{C: &Call{Callee: &FuncLit{Body: []Stmt{mut, &ExprStmt{X: g.p()}, &Return{Exprs: []Expr{&IntLit{V: 0}}}}}}},
+		&Return{Exprs: []Expr{ret}}}
+	return []Stmt{&Assign{LHS: []Expr{&Name{N: l}}, RHS: []Expr{&ListLit{Elems: []Expr{&IntLit{V: 11}, &IntLit{V: 22}}}}},
+		&ExprStmt{X: &FuncLit{Name: fn, Body: body}},
+		&ExprStmt{X: &Call{Fn: "rd", Args: []Expr{&StrLit{V: fn}, &Call{Fn: fn}}}},
+		&ExprStmt{X: &Call{Fn: "rd", Args: []Expr{&StrLit{V: l}, &Name{N: l}}}}}
+}
+
 func (g *G) deferStmt(c ctx) []Stmt {
 	g.feat("defer")
 	if g.R.Intn(6) == 0 {
 		return g.deferElement()
+	}
+	if g.R.Intn(8) == 0 {
+		return g.deferAfterReturn()
 	}
 	switch g.R.Intn(7) {
 	case 0, 1:
